@@ -256,6 +256,20 @@ func c11Pool(seed int64, idx int) []c11Call {
 	big := strings.Repeat("0123456789abcdef<&>é", 200+r.Intn(6000))
 	vals = append(vals, val{big, "big-string"}, val{[]string{big[:len(big)/3], "x"}, "big-slice"}, val{map[string]any{"k": big[:100], "n": []any{1.0, nil}}, "map"},
 		val{chainRecB(2 + r.Intn(30)), "rec-chain"}, val{zoo.Tags{Plain: r.Intn(9), Renamed: 2}, "tags"}, val{QT{A: 1, B: "b", C: &QT{A: 2, B: "inner"}, D: []int{1}, E: map[string]int{"z": 1, "a": 2}}, "QT"})
+	// byte slices whose base64 text does and does not fit what is left of a pooled buffer
+	// (1024 bytes on a cold context, more after a large result)
+	bs := func(n int) []byte {
+		b := make([]byte, n)
+		for i := range b {
+			b[i] = byte(i*7 + n)
+		}
+		return b
+	}
+	vals = append(vals, val{bs(700 + r.Intn(200)), "bytes-around-1Ki"}, val{bs(3000), "bytes-3000"}, val{struct {
+		A string
+		B []byte
+		C []byte
+	}{"pad", bs(500), bs(900)}, "bytes-members"}, val{[][]byte{bs(10), bs(760), bs(770)}, "bytes-elements"}, val{map[string][]byte{"k": bs(2000)}, "bytes-map-value"})
 	failing := []val{{c11Holder{A: "x", P: c11Panicker{1}}, "panicking-marshaler"}, {c11Holder{A: big[:50], E: c11Err{3}, M: map[string]int{"a": 1}}, "erroring-marshaler"},
 		{math.NaN(), "nan"}, {map[string]any{"f": math.Inf(1)}, "inf-in-map"}, {[]any{1, c11Err{1}}, "error-in-slice"}, {func() {}, "func"}, {make(chan int), "chan"}}
 	for _, v := range vals {
